@@ -79,6 +79,7 @@ func checkC12(w *World, r *Report) {
 		})
 		return found
 	}
+	viaObject := false
 	var chokeCall ssa.CallInstruction
 	var binderCall *ssa.Call // when the binder is a sibling of the body renderer: its call in their common caller
 	if !hasParamLoop(choke) {
@@ -107,6 +108,15 @@ func checkC12(w *World, r *Report) {
 						}
 						b := c.Call.StaticCallee()
 						if b == nil || b == choke || !hasParamLoop(b) {
+							return
+						}
+						// both are methods called on one and the same call object (a struct that
+						// carries the macro, its fresh context and the arguments)
+						if choke.Signature.Recv() != nil && b.Signature.Recv() != nil && len(c.Call.Args) > 0 && len(e.Site.Common().Args) > 0 &&
+							types.Identical(choke.Signature.Recv().Type(), b.Signature.Recv().Type()) &&
+							sameValue(unspill(c.Call.Args[0]), unspill(e.Site.Common().Args[0])) {
+							binder, chokeCall, binderCall = b, e.Site, c
+							viaObject = true
 							return
 						}
 						// the context given to the body renderer is also given to the binder
@@ -145,6 +155,9 @@ func checkC12(w *World, r *Report) {
 							a = chokeCall.Common().Args[i]
 						}
 					}
+				}
+				if _, isP := a.(*ssa.Parameter); !isP {
+					a = origin(a) // carried in a field of the call object
 				}
 				leaves, bad := ctxLeaves(a, nil, ctors)
 				if bad == "" && len(leaves) > 0 {
@@ -211,6 +224,9 @@ func checkC12(w *World, r *Report) {
 							a = chokeCall.Common().Args[i]
 						}
 					}
+				}
+				if _, isP := a.(*ssa.Parameter); !isP {
+					a = origin(a)
 				}
 				leaves, bad := ctxLeaves(a, nil, ctors)
 				if bad == "" && len(leaves) > 0 {
@@ -334,7 +350,12 @@ func checkC12(w *World, r *Report) {
 			})
 		}
 	}
-	checkCallers(binder, 0)
+	callersOf := binder
+	if viaObject && binderCall != nil {
+		// the argument list is put into the call object by the function that builds it
+		callersOf = binderCall.Parent()
+	}
+	checkCallers(callersOf, 0)
 	r.floor("call sites of the macro choke point", n4, 1)
 	checkParserDoesNotEvaluate(w, r)
 	checkImportsRenderLibrary(w, r)
@@ -597,6 +618,30 @@ func checkMacroBinding(w *World, r *Report, fn *ssa.Function, macroCtx ssa.Value
 			}
 		}
 	}
+	var argsVal ssa.Value
+	if argsParam != nil {
+		argsVal = argsParam
+	} else {
+		// the argument list travels in a field of the call object the binder is a method of
+		instrsOf(fn, func(in ssa.Instruction) {
+			u, ok := in.(*ssa.UnOp)
+			if !ok || u.Op != token.MUL || argsVal != nil {
+				return
+			}
+			fa, ok := u.X.(*ssa.FieldAddr)
+			if !ok {
+				return
+			}
+			if _, isP := fa.X.(*ssa.Parameter); !isP {
+				return
+			}
+			if sl, ok := u.Type().Underlying().(*types.Slice); ok {
+				if it, ok := sl.Elem().Underlying().(*types.Interface); ok && it.NumMethods() == 0 {
+					argsVal = u
+				}
+			}
+		})
+	}
 	var sites []*ssa.Call
 	instrsOf(fn, func(in ssa.Instruction) {
 		c, ok := in.(*ssa.Call)
@@ -615,13 +660,13 @@ func checkMacroBinding(w *World, r *Report, fn *ssa.Function, macroCtx ssa.Value
 		construct := "binding of the current parameter"
 		if macroCtx != nil && recv != macroCtx {
 			// the receiver must be the macro's own context
-			if leaves, bad := ctxLeaves(recv, nil, w.ctxConstructors()); bad != "" || len(leaves) == 0 {
+			if leaves, bad := ctxLeaves(origin(recv), nil, w.ctxConstructors()); bad != "" || len(leaves) == 0 {
 				r.bad("R12.2", name, construct, pos, "the parameter is bound on a context other than the macro's own fresh context")
 				continue
 			}
 		}
 		val := callArgs(c)[1]
-		for _, res := range classifyBinding(w, fn, val, c.Block(), idxVal, paramVal, argsParam, evalM, 0) {
+		for _, res := range classifyBinding(w, fn, val, c.Block(), idxVal, paramVal, argsVal, evalM, 0) {
 			switch res.kind {
 			case "nil":
 				kinds["nil"]++
